@@ -130,3 +130,33 @@ func HasAtom2(r *Run, fn, what string, pred ExprPred) {
 		r.Fail(label, r.W.Pos(f.Node().Pos()), "no condition of the required form in the function")
 	}
 }
+
+// Resolved lifts an operand predicate over single-definition locals: it holds
+// for e when p holds for e, or when e is a local variable with exactly one
+// definition whose right-hand side satisfies Resolved(p) (two levels).  It
+// makes a rule indifferent to "introduce a local for a sub-expression".
+func Resolved(p ExprPred) ExprPred {
+	var rec func(c *Ctx, e ast.Expr, depth int) bool
+	rec = func(c *Ctx, e ast.Expr, depth int) bool {
+		if p(c, e) {
+			return true
+		}
+		if depth == 0 {
+			return false
+		}
+		id, ok := ast.Unparen(e).(*ast.Ident)
+		if !ok {
+			return false
+		}
+		v, ok := c.Info.ObjectOf(id).(*types.Var)
+		if !ok || v.IsField() || v.Pkg() == nil || v.Parent() == v.Pkg().Scope() {
+			return false
+		}
+		defs := c.DefsOf(v)
+		if len(defs) != 1 || defs[0].Rhs == nil {
+			return false
+		}
+		return rec(c, defs[0].Rhs, depth-1)
+	}
+	return func(c *Ctx, e ast.Expr) bool { return rec(c, e, 2) }
+}
